@@ -43,6 +43,10 @@ PROBES = [
     '10 A = VARPTR ( B ) : A = PEEK ( 1024 ) : TRON : TROFF', '0 PRINT "ZERO"', '10 A = 10 : B = 1.25 : C = 100000 : D = .5 : E = 1E5',
     '10 IF A THEN 10', '10 IF A > 1 THEN IF B > 2 THEN PRINT "X" ELSE PRINT "Y"', '10 NEXT : NEXT I , J', '10 RESTORE : END : STOP',
     '10 A$ = "HI  THERE "', '10 B = 1 : LET A$ ( 2 ) = " X Y"', '10 DIM Q$(3)\n20 Q$(1)="ABC"\n30 IF A=1 THEN N$="L R"', '10 LET Z9$=""',
+    '10 IF A = 1 THEN X = 2 ELSE IF A = 2 THEN 30 ELSE IF B THEN X = 3 ELSE X = 4\n30 END',
+    '10 IF A = 1 THEN 30 ELSE IF A = 2 THEN X = 25 ELSE IF B = 7 THEN 30\n30 END',
+    '10 IF A = 1 THEN X = 1.5 ELSE IF A = 2 THEN X = &HF ELSE X = 1E2', '10 FOR I = 1 TO 2 STEP 1 : PRINT I : NEXT',
+    '10 ON A + 1 GOTO 10 : ON B GOSUB 10', '10 HCOLOR 1 : HSCREEN 1 : HCLS 1 : CLS 1 : WIDTH 40', '10 RGB : CMP : PALETTE RGB',
     '10 PRINT TAB ( 5 ) ; "X" ; HEX$ ( 255 ) ; STR$ ( 1 ) ; VAL ( "1" ) ; ASC ( "A" ) ; CHR$ ( 65 ) ; LEN ( A$ )',
 ]
 
